@@ -228,8 +228,9 @@ Rollback(t) ==
 \* The process running t died inside Commit.  After restart and recovery the outcome is all or nothing:
 \* either the commit point had been reached (everything installed) or nothing of t remains.
 Crash(t) ==
-  /\ Committing(t)
-  /\ \/ /\ db' = IF tx[t].lin THEN db ELSE Installed(t)
+  /\ Live(t)
+  /\ \/ /\ Committing(t)
+        /\ db' = IF tx[t].lin THEN db ELSE Installed(t)
         /\ cat' = [s \in DOMAIN cat |-> IF cat[s].by = t THEN [cat[s] EXCEPT !.by = ""] ELSE cat[s]]
         /\ SetTx(t, [tx[t] EXCEPT !.st = "done", !.lin = TRUE, !.outcome = "committed"])
      \/ /\ ~tx[t].lin
